@@ -14,7 +14,7 @@ const BIN: [&str; 17] = ["eq", "ne", "lt", "le", "gt", "ge", "add", "sub", "mul"
 const UN: [&str; 3] = ["neg", "bitnot", "not"];
 const LITS: [i64; 11] = [0, 1, -1, 2, 31, 32, -2147483648, 2147483647, 65536, -7, 1000];
 
-const STRS: [&str; 14] = ["", "a", "b\u{e9}", "A", "aa", "ab", "b", "10", "9", "-1", " ", "z\u{10400}", "\u{e9}", "abcabcabc"];
+const STRS: [&str; 20] = ["", "0", "00", "-0", "+0", "007", "0x", "a", "b\u{e9}", "A", "aa", "ab", "b", "10", "9", "-1", " ", "z\u{10400}", "\u{e9}", "abcabcabc"];
 
 /// Integers from all over the 32-bit range: the usual suspects, neighbours of powers of two, the
 /// square-root-of-overflow region, small ones, and anything.
